@@ -113,7 +113,8 @@ func verifC11List() {
 	}
 	// the last config cut short under an outer length that is consistent with the cut
 	if n >= 1 && len(ref) > 0 {
-		j := vInt(1, len(cfgs[n-1]))
+		lc := len(cfgs[n-1])
+		j := []int{1, 2, lc / 2, lc - 1, lc}[vInt(0, 4)] // cut sizes: inside the last config's tail, its middle, its header, all of it
 		cutRef := ref[:len(ref)-j]
 		_, err := ParseConfigList(append([]byte{byte(len(cutRef) >> 8), byte(len(cutRef))}, cutRef...))
 		if n == 1 && j == len(cfgs[0]) {
@@ -302,4 +303,32 @@ func verifC11TLSServer() {
 	out := vTLSServerTry(cfg, priv, id)
 	vAssert(out != "badconfig" && out != "badkey", "crypto/tls's server accepts the config and key as EncryptedClientHelloKeys")
 	vReach("tls-server")
+}
+
+// verifC11Oversized: a list whose configs do not fit the 16-bit length prefix
+// (220 or 260 configs with a 255-byte public name, concrete) is refused by
+// ConfigList - it never yields bytes whose declared length differs from their
+// contents.
+func verifC11Oversized() {
+	name := make([]byte, 255)
+	for i := range name {
+		name[i] = 'n'
+	}
+	spec := ConfigSpec{Version: 0xfe0d, ID: 7, KEM: 0x20, PublicKey: make([]byte, 32), CipherSuites: []CipherSuite{{1, 1}}, PublicName: name}
+	cfg, err := spec.Bytes()
+	vAssert(err == nil, "Bytes")
+	n := []int{220, 260, 200}[vInt(0, 2)]
+	cfgs := make([]Config, n)
+	for i := range cfgs {
+		cfgs[i] = cfg
+	}
+	total := n * len(cfg)
+	list, err := ConfigList(cfgs)
+	if total > 65535 {
+		vAssert(err != nil, "a config list that does not fit its 16-bit length is refused")
+		vReach("oversized")
+		return
+	}
+	vAssert(err == nil && len(list) == 2+total && int(list[0])<<8|int(list[1]) == total, "a large list that fits is encoded with its true length")
+	vReach("large")
 }
